@@ -152,7 +152,7 @@ func c20Routing(c *vk.Ctx) {
 		"default path = marker called once / greeting)"
 	c.Assume("websocket.Accept cannot hijack an httptest.ResponseRecorder, so every request handed to the relay ends in a deterministic 4xx/5xx refusal; " +
 		"'handed to the relay' is recognised by equality with the response Relay.ServeHTTP alone gives to the same request")
-	c.Assume("Upgrade present with an empty value, and Accept values that contain or differ in letter case from application/nostr+json, are unclaimed")
+	c.Assume("Upgrade present with an empty value is unclaimed; for Accept values that contain or differ in letter case from application/nostr+json it is unclaimed WHICH of the two answers is due, but the response must be one of them in full")
 	c.Assume("HEAD/OPTIONS with exact Accept: an empty body is unclaimed (a body-less answer is legitimate HTTP); a non-empty body must be the document")
 
 	upgrades := []hdr{absent(), val("websocket"), val("x"), val("WebSocket"), val("")}
@@ -276,98 +276,109 @@ func routeOne(c *vk.Ctx, rc routeCase) {
 	if nm.calls.Load() != 0 {
 		c.Violate("C20/routing: nostr handler started without Upgrade header", resp(), rc)
 	}
-	switch acceptClass(rc.Accept) {
-	case "unclaimed":
-		c.Unclaimed(1)
-		kind := "other"
-		switch {
-		case dcalls > 0:
-			kind = "default"
-		case isJSONObject(body):
-			kind = "json"
-		}
-		outcome("unclaimed-accept:" + kind)
-		return
-
-	case "exact":
+	// the two answers the statement defines for a request without Upgrade; each judge returns
+	// ("", "", outcome) when the response is that answer in full, else the signature it would raise
+	judgeDoc := func() (sig, detail, oc string) {
 		// (b) the NIP-11 document
 		if dcalls != 0 {
-			c.Violate("C20/routing: default handler called for NIP-11 request", resp(), rc)
-			return
+			return "C20/routing: default handler called for NIP-11 request", resp(), ""
 		}
 		if (rc.Method == "HEAD" || rc.Method == "OPTIONS") && len(body) == 0 {
-			c.Unclaimed(1)
-			outcome("unclaimed-bodyless-" + rc.Method)
-			return
+			return "", "", "unclaimed-bodyless-" + rc.Method
 		}
 		if doc == nil {
 			if !json.Valid(body) {
-				c.Violate("C20/nip11: body is not valid JSON (no document configured)", resp(), rc)
-				return
+				return "C20/nip11: body is not valid JSON (no document configured)", resp(), ""
 			}
-			outcome("nip11-unconfigured:json")
-			return
+			return "", "", "nip11-unconfigured:json"
 		}
 		if status != http.StatusOK {
-			c.Violate("C20/nip11: status is not 200", resp(), rc)
-			return
+			return "C20/nip11: status is not 200", resp(), ""
 		}
 		if !json.Valid(body) {
-			c.Violate("C20/nip11: body is not valid JSON", resp(), rc)
-			return
+			return "C20/nip11: body is not valid JSON", resp(), ""
 		}
 		var got mocrelay.NIP11
 		if err := json.Unmarshal(body, &got); err != nil {
-			c.Violate("C20/nip11: body does not decode into NIP11", err.Error()+"; "+resp(), rc)
-			return
+			return "C20/nip11: body does not decode into NIP11", err.Error() + "; " + resp(), ""
 		}
 		wantDoc := populatedOrEmpty(rc.NIP11)
 		if !reflect.DeepEqual(normDoc(&got), normDoc(wantDoc)) {
-			c.Violate("C20/nip11: body differs from configured document", "fields: "+strings.Join(diffFields(&got, wantDoc), ",")+"; "+resp(), rc)
-			return
+			return "C20/nip11: body differs from configured document", "fields: " + strings.Join(diffFields(&got, wantDoc), ",") + "; " + resp(), ""
 		}
 		mt, params, err := mime.ParseMediaType(rec.Header().Get("Content-Type"))
 		if err != nil || mt != nostrJSON {
-			c.Violate("C20/nip11: Content-Type is not application/nostr+json", resp(), rc)
-			return
+			return "C20/nip11: Content-Type is not application/nostr+json", resp(), ""
 		}
 		if len(params) > 0 {
 			c.Unclaimed(1) // parameters on the media type are not spoken about
 		}
 		if rec.Header().Get("Access-Control-Allow-Origin") != "*" {
-			c.Violate("C20/nip11: missing CORS header", resp(), rc)
-			return
+			return "C20/nip11: missing CORS header", resp(), ""
 		}
-		outcome("nip11:200")
-		return
-
-	default:
+		return "", "", "nip11:200"
+	}
+	judgeDefault := func() (sig, detail, oc string) {
 		// (c) default handler or greeting; the document must not be served
 		if rc.Default {
 			if dcalls != 1 {
-				c.Violate("C20/routing: default handler not reached", fmt.Sprintf("calls=%d; ", dcalls)+resp(), rc)
-				return
+				return "C20/routing: default handler not reached", fmt.Sprintf("calls=%d; ", dcalls) + resp(), ""
 			}
 			if dm.method != rc.Method || dm.path != rc.Path {
-				c.Violate("C20/routing: default handler saw a different request", fmt.Sprintf("saw %s %s; ", dm.method, dm.path)+resp(), rc)
-				return
+				return "C20/routing: default handler saw a different request", fmt.Sprintf("saw %s %s; ", dm.method, dm.path) + resp(), ""
 			}
 			if string(body) != defaultBody {
-				c.Violate("C20/routing: default handler response altered", resp(), rc)
-				return
+				return "C20/routing: default handler response altered", resp(), ""
 			}
-			outcome("default")
-			return
+			return "", "", "default"
 		}
 		mt, _, _ := mime.ParseMediaType(rec.Header().Get("Content-Type"))
 		switch {
 		case len(body) == 0:
-			c.Violate("C20/routing: no greeting", resp(), rc)
+			return "C20/routing: no greeting", resp(), ""
 		case isJSONObject(body) || mt == nostrJSON:
-			c.Violate("C20/routing: NIP-11 document served without the Accept header", resp(), rc)
-		default:
-			outcome("greeting")
+			return "C20/routing: NIP-11 document served without the Accept header", resp(), ""
 		}
+		return "", "", "greeting"
+	}
+	switch acceptClass(rc.Accept) {
+	case "unclaimed":
+		// an Accept value that contains the media type, or differs from it in letter case: which of
+		// the two answers is due is not decided here, but the response must be ONE of them in full —
+		// the statement leaves no third kind of answer (an error page, half a document)
+		c.Unclaimed(1)
+		sd, _, od := judgeDoc()
+		sf, _, of := judgeDefault()
+		switch {
+		case sf == "":
+			outcome("unclaimed-accept:" + of)
+		case sd == "":
+			outcome("unclaimed-accept:" + od)
+		default:
+			c.Violate("C20/routing: request whose Accept merely contains (or differs in case from) the media type is answered neither with the document nor by the default handler / greeting",
+				"as a document answer: "+sd+"; as a default answer: "+sf+"; "+resp(), rc)
+		}
+		return
+
+	case "exact":
+		sig, detail, oc := judgeDoc()
+		if sig != "" {
+			c.Violate(sig, detail, rc)
+			return
+		}
+		if strings.HasPrefix(oc, "unclaimed-") {
+			c.Unclaimed(1)
+		}
+		outcome(oc)
+		return
+
+	default:
+		sig, detail, oc := judgeDefault()
+		if sig != "" {
+			c.Violate(sig, detail, rc)
+			return
+		}
+		outcome(oc)
 	}
 }
 
